@@ -154,10 +154,18 @@ class ConcurrentErrors:
             total = sum(6 * len(t) for t in c["threads"])
             c["sched"] = [rng.randrange(len(c["threads"])) for _ in range(rng.randint(0, total))]
             ccases.append(c)
+        # search aid (not a proof, not a schedule enumeration): FREE-RUNNING threads that make many failing calls at the same moment - for
+        # races that need a thread to be preempted where the hooks do not announce anything (e.g. inside the critical section that
+        # pushes the error).  Every call fails whatever the order, so outcomes and the verdict (a multiset) are order-insensitive
+        for (nth, k) in ([(8, 150), (12, 100)] if tier == "quick" else [(8, 600), (12, 400), (16, 300), (4, 1000)]):
+            ccases.append({"partial": False, "terms": [{"kind": "call", "mid": 0, "opener": "each", "pat": {"matcher": 255, "dbg": 1, "ops": [("ret", 1)]}}],
+                           "threads": [[(1, (t + j) % 8) for j in range(k)] for t in range(nth)], "sched": [], "free": True,
+                           "shared": nth == 12})
         impl, model = eng.both(ccases)
         bad = [i for i in range(len(ccases)) if B.results_only(B.project(impl[i])) != B.results_only(B.project(model[i]))]
         cov = {"concurrent_part": {"evaluations": len(ccases), "rule": ConcurrentErrors.__doc__ + " / " + conc_case.__doc__,
-                                   "exhaustive_programs": len(small)}}
+                                   "exhaustive_programs": len(small),
+                                   "free_running_stress_cases": sum(1 for c in ccases if c.get("free"))}}
         if not bad:
             return len(ccases), None, cov
         i = min(bad, key=lambda k: (sum(len(t) for t in ccases[k]["threads"]), len(ccases[k]["sched"])))
